@@ -381,7 +381,9 @@ func checkAuthnGate(r *Report, p *Prog) {
 					why := []string{}
 					if expAtom != "" && implied(blk, B.Not(B.Var(expAtom))) {
 						tt := a.Atoms[expAtom].TT
-						src := valueSources(p, fn, tt[1].BaseV, 0, map[string]bool{})
+						// (the comparison may sit in a small predicate - Expired(now, expire) - that is handed the instant)
+						_, nowV := throughParams(a.Atoms[expAtom].Ctx, tt[1].BaseV)
+						src := valueSources(p, fn, nowV, 0, map[string]bool{})
 						if len(src) == 1 && src[0] == "call through saml.TimeNow" && len(tt[0].Coef) == 0 && len(tt[1].Coef) == 0 && tt[0].Const == 0 && tt[1].Const == 0 {
 							okExp = true
 						} else {
@@ -460,6 +462,17 @@ func checkAuthnGate(r *Report, p *Prog) {
 							continue
 						}
 						ap := lfc.AP(st.Val)
+						// a value made by a small constructor of the package (newSessionID() = base64(randomBytes(32)) under a
+						// defined string type): named by what the constructor returns
+						if _, pv := throughParams(nil, st.Val); pv != nil {
+							if c, isC := pv.(*ssa.Call); isC && strings.HasPrefix(ap, "r:") {
+								if sc := c.Call.StaticCallee(); sc != nil && p.InLibrary(sc) && inPkg(sc, idpPkgPath) && len(sc.Blocks) > 0 && lfc.depth < lfc.A.MaxDepth {
+									if ret := singleReturn(sc); ret != nil && len(ret.Results) == 1 {
+										ap = lfc.inlineCtx(sc, c.Call.Args, c).AP(ret.Results[0])
+									}
+								}
+							}
+						}
 						c2 := fmt.Sprintf("%s: new session field %s", p.FnName(al.Parent()), field)
 						okF := strings.HasPrefix(ap, "User.") || strings.Contains(ap, "/User.") || strings.Contains(ap, "randomBytes") || strings.Contains(ap, "TimeNow") || strings.HasPrefix(ap, "c:")
 						if field == "ID" || field == "Index" {
@@ -1242,12 +1255,24 @@ func checkHash(r *Report, p *Prog) {
 					case *ssa.Store:
 						continue // assignment to the field
 					case *ssa.UnOp:
-						for _, use := range *x.Referrers() {
+						// (the hash under a defined type - type passwordHash []byte - is still the hash: its uses count)
+						uses := append([]ssa.Instruction{}, *x.Referrers()...)
+						isHash := map[ssa.Value]bool{x: true}
+						for k := 0; k < len(uses) && k < 64; k++ {
+							if ct, ok := uses[k].(*ssa.ChangeType); ok && ct.Referrers() != nil {
+								isHash[ct] = true
+								uses = append(uses, *ct.Referrers()...)
+							}
+						}
+						for _, use := range uses {
+							if _, isCT := use.(*ssa.ChangeType); isCT {
+								continue
+							}
 							n++
 							cons := fmt.Sprintf("%s: use of the stored password hash", p.FnName(fn))
 							switch y := use.(type) {
 							case *ssa.Call:
-								if calleeIs(y, "golang.org/x/crypto/bcrypt.CompareHashAndPassword") && y.Call.Args[0] == ssa.Value(x) {
+								if calleeIs(y, "golang.org/x/crypto/bcrypt.CompareHashAndPassword") && isHash[y.Call.Args[0]] {
 									r.OK("C19.hash", cons+" (credential check)", p.InstrPos(use), "first argument of CompareHashAndPassword")
 									continue
 								}
@@ -1255,7 +1280,7 @@ func checkHash(r *Report, p *Prog) {
 								if sc := y.Call.StaticCallee(); sc != nil && p.InLibrary(sc) && inPkg(sc, idpPkgPath) && len(sc.Blocks) > 0 {
 									bad := ""
 									for i, a := range y.Call.Args {
-										if a == ssa.Value(x) && i < len(sc.Params) {
+										if isHash[a] && i < len(sc.Params) {
 											bad = firstNonEmpty(bad, hashParamMisuse(p, sc, sc.Params[i], 0))
 										}
 									}
@@ -1685,6 +1710,9 @@ func checkKeyAgreement(r *Report, p *Prog) {
 // storeKeyOf: a store key in the form (format, argument): fmt.Sprintf("<prefix>%s", x), "<prefix>" + x, or either of
 // these computed by a side-effect-free helper of its argument; ("?", access path) otherwise.
 func storeKeyOf(fc *FuncCtx, v ssa.Value, depth int) (string, string) {
+	// (a key under a defined string type - type storeKey string - and through the parameters of the small methods that
+	// build it: sessionID(x).key().text())
+	fc, v = throughParams(fc, v)
 	switch x := v.(type) {
 	case *ssa.Call:
 		if calleeIs(x, "fmt.Sprintf") {
@@ -1704,6 +1732,12 @@ func storeKeyOf(fc *FuncCtx, v ssa.Value, depth int) (string, string) {
 		if x.Op == token.ADD {
 			if pf, ok := constStr(x.X); ok {
 				return pf + "%s", fc.AP(x.Y)
+			}
+			// the prefix handed to a key-building helper as an argument (StoreKey(SessionsPrefix, id) = prefix + id)
+			if _, pv := throughParams(fc, x.X); pv != nil {
+				if pf, ok := constStr(pv); ok {
+					return pf + "%s", fc.AP(x.Y)
+				}
 			}
 			// the prefix read from a constant package-level table by a constant index (storePrefix[kindUser] + name)
 			if pf, ok := constTableString(fc, x.X); ok {
@@ -2032,17 +2066,25 @@ func hashParamMisuse(p *Prog, fn *ssa.Function, prm *ssa.Parameter, depth int) s
 	if depth > 2 {
 		return "it is handed on through more than two helpers"
 	}
-	for _, use := range *prm.Referrers() {
+	uses := append([]ssa.Instruction{}, *prm.Referrers()...)
+	isHash := map[ssa.Value]bool{prm: true}
+	for k := 0; k < len(uses) && k < 64; k++ {
+		if ct, ok := uses[k].(*ssa.ChangeType); ok && ct.Referrers() != nil {
+			isHash[ct] = true
+			uses = append(uses, *ct.Referrers()...)
+		}
+	}
+	for _, use := range uses {
 		switch y := use.(type) {
-		case *ssa.DebugRef:
+		case *ssa.DebugRef, *ssa.ChangeType:
 		case *ssa.Call:
-			if calleeIs(y, "golang.org/x/crypto/bcrypt.CompareHashAndPassword") && y.Call.Args[0] == ssa.Value(prm) {
+			if calleeIs(y, "golang.org/x/crypto/bcrypt.CompareHashAndPassword") && isHash[y.Call.Args[0]] {
 				continue
 			}
 			if sc := y.Call.StaticCallee(); sc != nil && p.InLibrary(sc) && inPkg(sc, idpPkgPath) && len(sc.Blocks) > 0 {
 				bad := ""
 				for i, a := range y.Call.Args {
-					if a == ssa.Value(prm) && i < len(sc.Params) {
+					if isHash[a] && i < len(sc.Params) {
 						bad = firstNonEmpty(bad, hashParamMisuse(p, sc, sc.Params[i], depth+1))
 					}
 				}
